@@ -41,7 +41,10 @@ var classProp = map[string]string{
 	"inbatch-duplicate-reached-appender": "C29", "append-attempt-bound": "C29", "append-repeated": "C29", "append-third-attempt": "C29",
 	"append-retry-without-first": "C29", "append-retry-mixes-batches": "C29", "second-append-for-recovered-key": "C29",
 	"append-retry-after-success": "C29", "append-retry-without-recovery": "C29", "inflight-exceeded": "C29",
-	"envelope-without-commit": "C29", "envelope-mismatch": "C29", "duplicate-envelope": "C29", "missing-envelope": "C29",
+	"envelope-without-commit": "C29", "envelope-mismatch": "C29", "duplicate-envelope": "C29",
+	// an acknowledged commit whose post-commit handoff never happened was dropped:
+	// by the pipeline (C29 conservation) or, after a Stop began, by the stop (C41)
+	"missing-envelope": "both",
 	"acked-append-reported-failed": "both", "result-never-delivered": "both",
 	"admitted-after-stop": "C41", "stop-returned-before-drain": "C41", "work-cancelled": "C41", "drain-stuck": "C41", "admitted-future-not-terminal": "C41",
 }
